@@ -16,6 +16,7 @@ package main
 //@ ghost var gName Str
 //@ ghost var gRegular Bool
 //@ ghost var gUTF8 Bool
+//@ ghost var gRead Slice
 //@ extern github.com/rogpeppe/go-internal/txtar.NeedsQuote(data) (r)
 //@   pure
 //@   ensures r == needsQuoteC(sid(data))
@@ -50,6 +51,9 @@ package main
 //@   at call utf8.Valid#1: bind gUTF8 = r
 //@   at call os.ReadFile#1: requires name == path
 //@   at call txtar.NeedsQuote#1: ghost gArgId = sid(data)
+//@   at call os.ReadFile#1: bind gRead = data
+//@   at call txtar.NeedsQuote#1: requires (len(gRead) == 0 ==> len(data) == 0) && (len(gRead) > 0 ==> len(data) >= len(gRead) && len(data) <= len(gRead) + 1 && at(data, hi(data)-1) == '\n')
+//@   at call txtar.NeedsQuote#1: requires len(data) == len(gRead) ==> sameSlice(data, gRead)
 //@   at call txtar.NeedsQuote#1: bind gNQ = r
 //@   at call txtar.Quote#1: bind gQErr = err
 //@   at call txtar.Quote#1: requires C_Bool[quoteFlag] && sid(data) == gArgId
